@@ -32,6 +32,9 @@ func (a StreamID) Less(b StreamID) bool { return a.Ms < b.Ms || (a.Ms == b.Ms &&
 type StreamEntry struct {
 	ID     StreamID
 	Fields [][]byte // f1 v1 f2 v2 ...
+	// Reported: the spelling under which XADD reported the ID, when the request spelt it in a
+	// non-canonical way ("007-01"); XRANGE must list the entry under the ID that XADD reported.
+	Reported string
 }
 
 // Val is one stored value.
